@@ -148,6 +148,13 @@ def source(spec):
         _, pairs, warranty = spec
         return Ref([(k, v) for k, v in pairs], True, True, True, 'yes', True, 'dict',
                    frozenset({'dict', 'w_' + warranty}))
+    if kind == 'special':
+        _, name, keyed = spec
+        vals = fns.special_values(name)
+        if keyed:
+            return Ref([(f'k{i}', v) for i, v in enumerate(vals)], True, True, True, 'yes', True, 'dict',
+                       frozenset({'dict', 'special'}))
+        return Ref([(None, v) for v in vals], True, True, False, 'undef', False, 'list', frozenset({'list', 'special'}))
     if kind == 'DictDataset':
         _, pairs = spec
         return Ref([(k, v) for k, v in pairs], True, True, True, 'yes', True, 'dict',
